@@ -331,3 +331,52 @@ Proof.
   pose proof (exec_gen_correct p te e1 b0 Ek Hs Hc1) as Hx. unfold sym_look. rewrite Hx. unfold init_state.
   destruct (exec_stmts e1 (pstmts p) _) as [ms|err|]; reflexivity.
 Qed.
+
+(* ====================================================================== consequences *)
+From LV Require Import Machine.SemSafe Machine.BalProofs Machine.RunProofs.
+
+Corollary vm_run_ok p given s vr : vm_run p given s = Ok vr -> exists r, run p given s = Ok r /\ vr = flat_result r.
+Proof. rewrite vm_run_correct. destruct (run p given s) as [r|err|]; simpl; intros H; inv H. exists r. auto. Qed.
+
+(* no typed pop on another type, no stack underflow, no BUMP out of range, no nil amount, no default branch, no type
+   assertion in ResolveResources / ResolveBalances, and the stack is empty after the last instruction *)
+Corollary vm_run_no_panic p given s : vm_run p given s <> Panic.
+Proof. rewrite vm_run_correct. pose proof (run_no_panic p given s). destruct (run p given s); simpl; congruence. Qed.
+
+Corollary run_program_no_panic p cp given s : compile p = Some cp -> run_program cp given s <> Panic.
+Proof. intros H. pose proof (vm_run_no_panic p given s) as Hn. unfold vm_run in Hn. rewrite H in Hn. exact Hn. Qed.
+
+(* when the machine returns, Execute ended with an empty stack and every instruction was executed *)
+Corollary run_program_stack_empty cp given s vr : run_program cp given s = Ok vr ->
+  exists vals b0 st, exec (nth_error vals) (cp_instrs cp) {| vstk := []; vbal := b0; vposts := []; vtx := []; vacc := [] |} = Ok st /\
+                     vstk st = [] /\ vr_posts vr = vposts st /\ vr_bal vr = vbal st.
+Proof.
+  unfold run_program. destruct (negb _); [discriminate|].
+  destruct (vm_resolve _ _ _ _ _) as [[vals0 bvs]|?|]; try discriminate. cbv beta iota delta [bind].
+  destruct (vm_resolve_balances _ _ _ _) as [[vals b0]|?|]; try discriminate. cbv beta iota delta [bind].
+  destruct (exec _ _ _) as [st|?|] eqn:E; try discriminate. cbv beta iota delta [bind].
+  unfold finish. destruct (vstk st) eqn:Es; [|discriminate]. intros H. inv H. exists vals, b0, st. simpl. auto.
+Qed.
+
+(* ---------- C22 / C23 of the machine itself (compiled program on the bytecode VM) ---------- *)
+Corollary vm_send p given s vr : vm_run p given s = Ok vr ->
+  exists e groups, Forall2 (stmt_guarantee e) (pstmts p) groups /\ vr_posts vr = List.concat groups.
+Proof. intros H. destruct (vm_run_ok _ _ _ _ H) as [r [Hr ->]]. destruct (run_guarantee _ _ _ _ Hr) as [e HF]. exists e, (rposts r). auto. Qed.
+
+Corollary vm_balances p given s vr : vm_run p given s = Ok vr ->
+  exists saved, forall k v, fst k <> "world"%string -> bget (vr_init vr) k = Some v ->
+    v = store_balance s k /\
+    bget (vr_bal vr) k = Some (v + effect (fst k) (snd k) (vr_posts vr) - saved_for k saved).
+Proof.
+  intros H. destruct (vm_run_ok _ _ _ _ H) as [r [Hr ->]]. exists (rsaved r). intros k v Hw Hi. simpl in *.
+  split; [apply (run_init_store _ _ _ _ Hr _ _ Hi)|apply (run_balances _ _ _ _ Hr _ _ Hw Hi)].
+Qed.
+
+Corollary vm_bounded p given s vr : vm_run p given s = Ok vr ->
+  exists e, forall k B v, fst k <> "world"%string -> 0 <= B -> Forall (stmt_bound k e B) (pstmts p) ->
+    bget (vr_init vr) k = Some v -> Z.min v (- B) <= v + effect (fst k) (snd k) (vr_posts vr).
+Proof. intros H. destruct (vm_run_ok _ _ _ _ H) as [r [Hr ->]]. destruct (run_bounded _ _ _ _ Hr) as [e [_ Hb]]. exists e. exact Hb. Qed.
+
+Corollary vm_no_overdraft p given s vr : vm_run p given s = Ok vr -> forallb stmt_no_overdraft (pstmts p) = true ->
+  forall k v, fst k <> "world"%string -> bget (vr_init vr) k = Some v -> Z.min v 0 <= v + effect (fst k) (snd k) (vr_posts vr).
+Proof. intros H Hn. destruct (vm_run_ok _ _ _ _ H) as [r [Hr ->]]. exact (run_no_overdraft _ _ _ _ Hr Hn). Qed.
